@@ -144,10 +144,12 @@ pub enum Ty {
     DirL,
     RecL,
     V,
+    /// `Arc<LS>`: Arc of a type that opts out of hot-reloading
+    ALS,
 }
 impl Ty {
     pub fn reloadable(self) -> bool {
-        !matches!(self, Ty::LS | Ty::V)
+        !matches!(self, Ty::LS | Ty::V | Ty::ALS)
     }
     pub fn parse(s: &str) -> Ty {
         match s {
@@ -159,6 +161,7 @@ impl Ty {
             "DirL" => Ty::DirL,
             "RecL" => Ty::RecL,
             "V" => Ty::V,
+            "ALS" => Ty::ALS,
             _ => panic!("bad type {s}"),
         }
     }
@@ -181,6 +184,8 @@ pub enum Step {
     NoRec(Vec<Step>),
     Thread(Vec<Step>),
     Other(Vec<Step>),
+    /// catch_unwind around the inner steps (which may panic); always through the current cache
+    Try(Vec<Step>),
 }
 
 pub fn parse_script(s: &str) -> Vec<Step> {
@@ -192,6 +197,7 @@ pub fn parse_script(s: &str) -> Vec<Step> {
                 "norec{" => out.push(Step::NoRec(block(it))),
                 "thread{" => out.push(Step::Thread(block(it))),
                 "other{" => out.push(Step::Other(block(it))),
+                "try{" => out.push(Step::Try(block(it))),
                 _ => {
                     if let Some((k, x)) = t.split_once(':') {
                         out.push(Step::Op(k.to_string(), x.to_string()));
@@ -317,6 +323,22 @@ fn exec(cache: AnyCache, steps: &[Step], out: &mut String) -> Result<(), BoxedEr
                 };
                 write!(out, " thread{{{s} }}").unwrap();
                 r?;
+            }
+            Step::Try(b) => {
+                out.push_str(" try{");
+                let mut inner = String::new();
+                let r = std::panic::catch_unwind(std::panic::AssertUnwindSafe(|| exec(cache, b, &mut inner)));
+                out.push_str(&inner);
+                match r {
+                    Ok(r) => r?,
+                    Err(e) => {
+                        if e.is::<ds::Aborted>() {
+                            std::panic::resume_unwind(e);
+                        }
+                        out.push_str(" !panic");
+                    }
+                }
+                out.push_str(" }");
             }
             Step::Other(b) => {
                 let ptr = CTX.lock().unwrap().1;
@@ -465,7 +487,7 @@ impl Eval {
         let parse = |s: &str| -> Result<String, EvErr> { s.trim().parse::<i64>().map(|n| n.to_string()).map_err(|_| EvErr::Err("parse".into())) };
         let r = (|| -> Result<String, EvErr> {
             match ty {
-                Ty::L | Ty::LS => {
+                Ty::L | Ty::LS | Ty::ALS => {
                     deps.insert(Dep::File(id.clone(), "l".into()));
                     parse(&self.read(v, other, id, "l")?)
                 }
@@ -695,6 +717,15 @@ impl Eval {
                     write!(out, " thread{{{s} }}").unwrap();
                     r?;
                 }
+                Step::Try(b) => {
+                    out.push_str(" try{");
+                    match self.steps(v, b, rec, other, deps, out) {
+                        Ok(()) => {}
+                        Err(EvErr::Panic) => out.push_str(" !panic"),
+                        Err(e) => return Err(e),
+                    }
+                    out.push_str(" }");
+                }
                 Step::Other(b) => {
                     out.push_str(" other{");
                     self.steps(v, b, false, true, deps, out)?;
@@ -794,24 +825,38 @@ pub fn parse_entry(s: &str) -> Dep {
 
 /// Blank out everything inside `{ ... }` (no_record / thread / other blocks, at any nesting).
 pub fn mask_unrecorded(s: &str) -> String {
+    // `try{ .. }` is a recorded context: its braces are transparent
     let mut out = String::new();
-    let mut depth = 0usize;
+    let mut stack: Vec<bool> = vec![]; // true = masking block
+    let mut word = String::new();
     for c in s.chars() {
+        let masked = stack.iter().any(|m| *m);
         match c {
             '{' => {
-                if depth == 0 {
-                    out.push_str("{..");
+                let is_try = word == "try";
+                if !masked {
+                    out.push_str(if is_try { "{" } else { "{.." });
                 }
-                depth += 1;
+                stack.push(!is_try);
+                word.clear();
             }
             '}' => {
-                depth = depth.saturating_sub(1);
-                if depth == 0 {
+                stack.pop();
+                if !stack.iter().any(|m| *m) {
                     out.push('}');
                 }
+                word.clear();
             }
-            _ if depth == 0 => out.push(c),
-            _ => {}
+            _ => {
+                if c.is_whitespace() {
+                    word.clear();
+                } else {
+                    word.push(c);
+                }
+                if !masked {
+                    out.push(c);
+                }
+            }
         }
     }
     out
@@ -890,7 +935,7 @@ impl World {
     pub fn universe(&self) -> Vec<Key> {
         let mut u = vec![];
         for l in &self.cfg.leaves {
-            for t in [Ty::L, Ty::L2, Ty::LS, Ty::P, Ty::V] {
+            for t in [Ty::L, Ty::L2, Ty::LS, Ty::P, Ty::V, Ty::ALS] {
                 u.push((t, l.clone()));
             }
         }
@@ -924,6 +969,7 @@ impl World {
             Ty::LS => pk!(LS, |x| x.v.to_string()),
             Ty::P => pk!(P, |x| x.v.to_string()),
             Ty::V => pk!(V, |x| x.v.to_string()),
+            Ty::ALS => pk!(std::sync::Arc<LS>, |x| x.v.to_string()),
             Ty::N => pk!(N, |x| x.text.clone()),
             Ty::DirL => pk!(assets_manager::Directory<L>, |x| fmt_ids(x.ids())),
             Ty::RecL => pk!(assets_manager::RecursiveDirectory<L>, |x| fmt_ids(x.ids())),
@@ -1256,6 +1302,7 @@ impl World {
                     Ty::L2 => go!(L2, |x| x.v.to_string()),
                     Ty::LS => go!(LS, |x| x.v.to_string()),
                     Ty::P => go!(P, |x| x.v.to_string()),
+                    Ty::ALS => go!(std::sync::Arc<LS>, |x| x.v.to_string()),
                     Ty::N => go!(N, |x| x.text.clone()),
                     Ty::DirL => go!(assets_manager::Directory<L>, |x| fmt_ids(x.ids())),
                     Ty::RecL => go!(assets_manager::RecursiveDirectory<L>, |x| fmt_ids(x.ids())),
@@ -1346,6 +1393,7 @@ impl World {
                     Ty::LS => rm!(LS),
                     Ty::P => rm!(P),
                     Ty::V => rm!(V),
+                    Ty::ALS => rm!(std::sync::Arc<LS>),
                     Ty::N => rm!(N),
                     Ty::DirL => rm!(assets_manager::Directory<L>),
                     Ty::RecL => rm!(assets_manager::RecursiveDirectory<L>),
